@@ -84,6 +84,18 @@ func parseContracts(repo string) (map[string]*Contract, []string, error) {
 			return nil, nil, err
 		}
 	}
+	// assumed contracts of functions outside the module (documentation-derived): /verif/spec/externals.contracts
+	ext := filepath.Join(verifDir(), "spec", "externals.contracts")
+	if _, err := os.Stat(ext); err == nil {
+		if err := parseContractFile(ext, "ext", out); err != nil {
+			return nil, nil, err
+		}
+		for k, c := range out {
+			if strings.HasPrefix(k, "ext.") {
+				c.Assumed = true
+			}
+		}
+	}
 	return out, files, nil
 }
 
